@@ -193,6 +193,8 @@ def rule_generic(ctx):
     ctx.ob("GENERIC", "no local FromStr impl for the string type parameters", not local_fromstr, detail=str(local_fromstr))
 
 
+THOROUGH_FS = []
+
 RULES = [("SIBLING", rule_sibling, 20), ("GENERIC", rule_generic, 4)]
 
 MANIFEST = {
